@@ -204,16 +204,10 @@ impl Repr {
             // SAFETY: We just checked that `self` is HeapBuffer
             let heap = unsafe { self.as_heap_buffer_mut() };
 
-            // Because `fetch_sub` is already atomic, we should use `Release` ordering to avoid
-            // unexpected drop of the buffer and to ensure that the buffer is unique.
-            if heap.reference_count().fetch_sub(1, Release) == 1 {
+            // `is_unique` loads the reference count with `Acquire` ordering, so every access made
+            // through a handle that has been dropped happens-before the in-place modification.
+            if heap.is_unique() {
                 // `heap` is unique, we can reallocate in place.
-
-                // We need to rollback the reference count.
-                // We should use `Acquire` ordering to prevent reordering of the reallocation and
-                // the reference count increment.
-                // This is a same meaning of `fence(Acquire); fech_add(1, Relaxed);`
-                heap.reference_count().fetch_add(1, Acquire);
 
                 if heap.capacity() >= needed_capacity {
                     // No need to reserve more capacity.
@@ -227,10 +221,11 @@ impl Repr {
                 unsafe { heap.realloc(amortized_capacity)? };
             } else {
                 // heap is shared, we need to reallocate a new buffer.
-                // We already decremented the reference count, no need to touch it again.
+                // We keep our reference while copying (and if the allocation fails), and release
+                // it only after the copy is complete.
                 let str = heap.as_str();
                 let new_heap = HeapBuffer::with_additional(str, additional)?;
-                *self = Repr::from_heap(new_heap);
+                self.replace_inner(Repr::from_heap(new_heap));
             }
             Ok(())
         } else if self.is_static_buffer() {
@@ -501,13 +496,9 @@ impl Repr {
                 // SAFETY: `new_len <= len <= capacity`
                 unsafe { heap.set_len(new_len) };
             } else {
-                // See `reverse` method for the explanation of the ordering.
-                if heap.reference_count().fetch_sub(1, Release) == 1 {
+                // See `reserve` method for the explanation of the ordering.
+                if heap.is_unique() {
                     // `heap` is unique, we can set the new length in place.
-
-                    // See `reverse` method for the explanation of the ordering.
-                    heap.reference_count().fetch_add(1, Acquire);
-
                     // SAFETY: `heap` is unique, we can reallocate in place.
                     unsafe { heap.set_len(new_len) };
                 } else {
@@ -525,7 +516,8 @@ impl Repr {
                         let slice = slice::from_raw_parts_mut(ptr, new_len);
                         str::from_utf8_unchecked_mut(slice)
                     };
-                    *self = Repr::from_str(str)?;
+                    let new_repr = Repr::from_str(str)?;
+                    self.replace_inner(new_repr);
                 }
             }
         } else if self.is_static_buffer() {
@@ -638,17 +630,12 @@ impl Repr {
             // SAFETY: we just checked self is HeapBuffer
             let heap = unsafe { self.as_heap_buffer_mut() };
 
-            // See `reverse` method for the explanation of the ordering.
-            if heap.reference_count().fetch_sub(1, Release) == 1 {
-                // `heap` is unique, we can modify it in place.
-
-                // See `reverse` method for the explanation of the ordering.
-                heap.reference_count().fetch_add(1, Acquire);
-            } else {
-                // SAFETY: `heap` is shared, we need to create a new buffer.
+            // See `reserve` method for the explanation of the ordering.
+            if !heap.is_unique() {
+                // `heap` is shared, we need to create a new buffer.
                 let str = heap.as_str();
                 let new_heap = HeapBuffer::new(str)?;
-                *self = Repr::from_heap(new_heap);
+                self.replace_inner(Repr::from_heap(new_heap));
             }
         } else if self.is_static_buffer() {
             // StaticBuffer is immutable, need to convert to other buffer.
